@@ -64,9 +64,17 @@ class Ctx:
     def rng(self, *key):
         return random.Random("%s/%s/%s/%s" % (self.seed, self.pid, self.worker, "/".join(str(k) for k in key)))
 
+    @staticmethod
+    def scaled(total):
+        """BBVERIF_BUDGET_SCALE shrinks the workload for the mutation survey of
+        tools/automut.py; no registered command sets it, and a run that does is
+        told apart in the evidence (budget_scale)."""
+        f = float(os.environ.get("BBVERIF_BUDGET_SCALE", "1") or 1)
+        return total if f == 1 else max(1, int(total * f))
+
     def share(self, total):
         """This worker's share of a total number of cases."""
-        q, r = divmod(total, self.nworkers)
+        q, r = divmod(self.scaled(total), self.nworkers)
         return q + (1 if self.worker < r else 0)
 
     def my(self, index):
@@ -275,6 +283,7 @@ def run_check(pid, tier, seed=None, workers=None, quiet=False):
         if hooks.get(h, 0) == 0:
             problems.append("deciding hook %s was never reached" % h)
     minimum = getattr(mod, "MIN_NONTRIVIAL", {"quick": 50, "thorough": 200})[tier]
+    minimum = Ctx.scaled(minimum)
     if len(nontrivial) < minimum:
         problems.append("only %d distinct non-trivial cases (< %d)" % (len(nontrivial), minimum))
     for t in getattr(mod, "REQUIRED_TAGS", []):
@@ -327,6 +336,7 @@ def run_check(pid, tier, seed=None, workers=None, quiet=False):
         "known_findings_seen": known_seen,
         "violation_mechanisms": dict(vio_counts),
         "workers": len(results),
+        "budget_scale": float(os.environ.get("BBVERIF_BUDGET_SCALE", "1") or 1),
         "verdict": verdict,
         "problems": problems,
         "repo": env.REPO,
